@@ -65,7 +65,7 @@ package values
 // builtin(v): v is one of the seven built-in value types; accepts(v, s): strconv's verdict for that type.
 //@ pure func builtinValue(v any) bool = isType(v, "*BoolValue") || isType(v, "*StringValue") || isType(v, "*IntValue") || isType(v, "*Float64Value") ||
 //@     isType(v, "*StringsValue") || isType(v, "*IntsValue") || isType(v, "*Floats64Value")
-//@ pure func accepts(v any, s string) bool =
+//@ pure func acceptsValue(v any, s string) bool =
 //@     isType(v, "*BoolValue") ? ParseBool_ok(s) :
 //@     (isType(v, "*IntValue") || isType(v, "*IntsValue")) ? ParseInt_ok(s, 10, 64) :
 //@     (isType(v, "*Float64Value") || isType(v, "*Floats64Value")) ? ParseFloat_ok(s, 64) : true
@@ -76,7 +76,7 @@ package values
 //@   logged
 //@   requires recv: builtinValue(this) ==> ival(this) != 0
 //@   ensures own-cell: boxframe(ival(this))
-//@   ensures verdict: builtinValue(this) ==> ((result == nil) <==> accepts(this, s))
+//@   ensures verdict: builtinValue(this) ==> ((result == nil) <==> acceptsValue(this, s))
 
 //@ func MultiValued.Clear
 //@   logged
